@@ -292,8 +292,23 @@ def clause_c(c: Check):
     c.expect(ok, 'C14-c', 'freezing/writer-uses-write_to', 'the frozen copy is not produced by write_to of the unfrozen '
                                                            'contents', w.loc())
     fw = ix.func('exactly_lib.impls.types.string_source.contents.frozen:frozen__from_write')
-    src = unparse(fw.node)
-    ok = 'f.mem_buff' in src and 'ContentsOfStr(f.mem_buff' in src.replace('contents_of_str.', '')
+    ok = False
+    n_mem = 0
+    for p in util.func_paths(ix, c.fo, fw, Hooks()):
+        if p.kind != 'return':
+            continue
+        con = util.constructed(ix, p.val)
+        if con is not None and con[0].endswith(':ContentsOfStr'):
+            n_mem += 1
+            a0 = con[1][0] if con[1] else None
+            base, names = util.attr_chain(a0) if a0 is not None else (None, ())
+            bo = util.root_sym(base).origin if isinstance(util.root_sym(base), Sym) else None
+            good = names == ('mem_buff',) and bool(bo) and bo[0] == 'with'
+            # the file the writer wrote to is that same spooled file
+            wrote = [e for e in p.calls() if isinstance(e.node.func, ast.Attribute) and e.node.func.attr == 'write'
+                     and any(util.root_sym(x) is util.root_sym(base) for x in e.data['args'])]
+            good = good and len(wrote) == 1
+            ok = good if n_mem == 1 else (ok and good)
     c.expect(ok, 'C14-c', 'freezing/str-backed-from-same-buffer', 'the in-memory frozen value is not the buffer that was '
                                                                    'written', fw.loc())
 
